@@ -181,4 +181,22 @@ Proof.
   intros Hnorm n init j Hj. rewrite (p2_loop_every_entry _ _ (p2_fast_of I K Rk J X) Or ls normalize Hnorm n init j Hj). f_equal.
   destruct (fst _) as [[[P A] Bm] C]. unfold p2_fast_of, p2_true_of. apply (p2_err2_fast_proj_correct Op Rth).
 Qed.
+(* ... and with the normalisation hypothesis discharged: any normalisation that keeps the projections and rescales the columns of B and C with
+   A * weights absorbing the scales (what cp_normalize does to (weights, [A, B, C])) *)
+Definition p2_rescaled (st st' : p2_state) : Prop :=
+  let '(P, A, Bm, C) := st in let '(P', A', Bm', C') := st' in
+  P' = P /\ exists db dc : nat -> F,
+    (forall q r, Bm q r = fmul Op (db r) (Bm' q r)) /\ (forall k r, C k r = fmul Op (dc r) (C' k r)) /\
+    (forall i r, A' i r = fmul Op (A i r) (fmul Op (db r) (dc r))).
+Theorem p2_loop_reports_true_errors_rescaling (I K Rk : nat) (J : nat -> nat) (X : nat -> nat -> nat -> F) (Or : p2oracle p2_state) (ls normalize : bool) :
+  (forall st, p2_rescaled st (p2_norm Or st)) ->
+  forall n init j, j < length (snd (p2_loop (p2_fast_of I K Rk J X) Or ls normalize false n 0 init [])) ->
+  nth_error (snd (p2_loop (p2_fast_of I K Rk J X) Or ls normalize false n 0 init [])) j
+  = Some (p2_true_of I K Rk J X (fst (p2_loop (p2_fast_of I K Rk J X) Or ls normalize false (S j) 0 init []))).
+Proof.
+  intros Hres. apply p2_loop_reports_true_errors. intros st. specialize (Hres st).
+  destruct st as [[[P A] Bm] C]. destruct (p2_norm Or (P, A, Bm, C)) as [[[P' A'] Bm'] C'].
+  cbn in Hres. destruct Hres as [-> (db & dc & HB & HC & HA)]. unfold p2_fast_of.
+  exact (p2_rescale_fast Op Rth I K Rk J X P A A' Bm Bm' C C' db dc HB HC HA).
+Qed.
 End Compose.
